@@ -34,17 +34,20 @@ RULE = ('curve interpolate/least_square_fit: open and periodic bases of order 2-
         'closed/unclosed periodic input; bezier cubic/quadratic/relative; rebuild; surface/volume interpolate and '
         'least_square_fit on NON-SQUARE grids, tensor and flat layouts; loft of 2-6 curve sections / 2-5 surface '
         'sections, compatible and incompatible (orders, knots, rational, dimension, periodic); manipulate (scalar and '
-        'vectorized, x/t/v/a expressions); fit (four targets, rtol 1e-2..1e-5, atol).  distinct = distinct protocol '
+        'vectorized, x/t/v/a expressions); fit (eight targets incl. hard region at start/middle, rtol 1e-2..1e-5, atol 0/1e-3/1e-2, '
+        'and atol-binding / rtol-binding pairs); Curve.error with the error peak in the first/middle/last of >=3 spans.  distinct = distinct protocol '
         'lines + spec hash for oracle-only kinds; non-trivial = the factory returned an object.')
 REQUIRED_TAGS = ['kind=interp_curve', 'kind=lsq_curve', 'kind=cubic', 'kind=bezier', 'kind=rebuild', 'kind=interp_grid',
                  'kind=lsq_grid', 'kind=loft', 'kind=manipulate', 'kind=fit', 'kind=error',
                  'bd=FREE', 'bd=NATURAL', 'bd=HERMITE', 'bd=PERIODIC', 'bd=TANGENT', 'bd=TANGENTNATURAL',
                  'params=default', 'params=user', 'layout=tensor', 'layout=flat', 'pardim=2', 'pardim=3', 'nonsquare',
                  'projection', 'dim=1', 'dim=2', 'dim=3', 'periodic-basis', 'loft=incompatible', 'loft=compatible',
-                 'loft-sections=2', 'loft-sections=3', 'loft-sections>=4', 'loft=surfaces', 'lsq-overdetermined']
+                 'loft-sections=2', 'loft-sections=3', 'loft-sections>=4', 'loft=surfaces', 'lsq-overdetermined',
+                 'fit=atol-binding', 'fit=rtol-binding', 'fit-hard=start', 'fit-hard=middle', 'error-peak=first',
+                 'error-peak=middle', 'error-peak=last', 'error-spans>=3']
 KNOWN_LABELS = ['manipulate-getargspec', 'manipulate-derivative-averaging', 'lsq-flat-layout-reshape',
                 'volume-loft-two-sections']
-NO_MODEL = ('manipulate', 'fit', 'error')
+NO_MODEL = ('manipulate', 'fit')
 
 BOUNDARIES = {'FREE': 1, 'NATURAL': 2, 'HERMITE': 3, 'PERIODIC': 4, 'TANGENT': 5, 'TANGENTNATURAL': 6}
 
@@ -63,7 +66,8 @@ def _design(b, ts, d=0):
     sample projection data — independent of Splipy)."""
     from scipy.interpolate import BSpline
     p = b['order']
-    kn = np.array(b['knots'], dtype=float)
+    # knots produced by the library may decrease by an ulp (accepted within knot_tolerance); scipy insists on order
+    kn = np.maximum.accumulate(np.array(b['knots'], dtype=float))
     info = gen.basis_info(b)
     n_all, n = info['n_all'], info['n']
     ts = np.array(ts, dtype=float)
@@ -376,22 +380,50 @@ def _manip_spec(rng):
             'f': rng.choice(MANIP_FUNCS), 'normalized': rng.random() < 0.3, 'vectorized': rng.random() < 0.5, 'dim': dim}
 
 
-FIT_FUNCS = {'arc': (0.0, 2 * math.pi), 'exp': (0.0, 2.0), 'cubic': (-1.0, 1.0), 'runge': (-1.0, 1.0), 'helix': (0.0, 4.0)}
+FIT_FUNCS = {'arc': (0.0, 2 * math.pi), 'exp': (0.0, 2.0), 'cubic': (-1.0, 1.0), 'runge': (-1.0, 1.0), 'helix': (0.0, 4.0),
+             # hard region at the START of the domain / in the MIDDLE (the last knot span is the easy one)
+             'inv': (0.0, 1.0), 'layer': (2.0, 3.0), 'midstep': (0.0, 1.0)}
+FIT_HARD = {'inv': 'start', 'layer': 'start', 'midstep': 'middle', 'runge': 'middle', 'exp': 'end'}
 
 
 def _fit_spec(rng):
-    f = rng.choice(sorted(FIT_FUNCS))
+    f = rng.choice(['arc', 'exp', 'cubic', 'runge', 'helix'])
     rtol = rng.choice([1e-2, 1e-3, 1e-4, 1e-5])
     atol = rng.choice([0.0, 0.0, 1e-3, 1e-2])
     return {'kind': 'fit', 'f': f, 'rtol': rtol, 'atol': atol, 'dim': 3 if f == 'helix' else 2}
 
 
-def _error_spec(rng):
-    o = gen.rand_object(rng, pardim=1, pmax=4, periodic_prob=0.0, max_interior=2, pmin=2, rational=False)
-    n = len(o['cps'])
-    dim = len(o['cps'][0])
-    o2 = {'bases': o['bases'], 'cps': gen.rand_cps(rng, [n], dim, False), 'rational': False}
-    return {'kind': 'error', 'obj': o, 'target': o2, 'dim': dim}
+def _fit_binding_spec(rng, binding):
+    """One of the two stopping criteria is the binding one (the other is far tighter), on targets whose
+    hard region is at the start or in the middle of the domain."""
+    f = rng.choice(['inv', 'layer', 'midstep', 'inv', 'layer', 'runge'])
+    if binding == 'atol':
+        rtol, atol = rng.choice([(1e-7, 1e-3), (1e-8, 1e-4), (1e-7, 1e-2), (1e-8, 3e-4)])
+    else:
+        rtol, atol = rng.choice([(1e-3, 1e-9), (1e-4, 1e-10), (3e-4, 1e-9)])
+    return {'kind': 'fit', 'f': f, 'rtol': rtol, 'atol': atol, 'binding': binding, 'dim': 3 if f == 'layer' else 2}
+
+
+def _error_spec(rng, peak=None):
+    """Curve.error against a target on the same basis.  `peak` = where the largest pointwise error sits:
+    'first' / 'middle' / 'last' knot span (>= 3 spans: the target differs strongly only in control points whose
+    support avoids the other spans) or None (arbitrary target)."""
+    if peak is None:
+        o = gen.rand_object(rng, pardim=1, pmax=4, periodic_prob=0.0, max_interior=2, pmin=2, rational=False)
+        n = len(o['cps'])
+        dim = len(o['cps'][0])
+        o2 = {'bases': o['bases'], 'cps': gen.rand_cps(rng, [n], dim, False), 'rational': False}
+        return {'kind': 'error', 'obj': o, 'target': o2, 'dim': dim, 'peak': 'any'}
+    p = rng.choice([2, 3, 4])
+    b = gen.open_basis(rng, p, n_interior=rng.randint(3, 5), max_mult=1)
+    n = gen.basis_info(b)['n']
+    dim = rng.choice([2, 3])
+    cps = np.array(gen.rand_cps(rng, [n], dim, False))
+    tgt = cps + np.array([[gen.dyadic(rng, -0.0625, 0.0625, 6) for _ in range(dim)] for _ in range(n)])
+    i = {'first': 0, 'last': n - 1, 'middle': rng.randint(1, n - p - 1)}[peak]
+    tgt[i] += np.array([rng.choice([-4.0, 3.0, 5.0]) for _ in range(dim)])
+    return {'kind': 'error', 'obj': {'bases': [b], 'cps': cps.tolist(), 'rational': False},
+            'target': {'bases': [b], 'cps': tgt.tolist(), 'rational': False}, 'dim': dim, 'peak': peak}
 
 
 def generate(rng, tier):
@@ -429,8 +461,10 @@ def generate(rng, tier):
             specs.append(_manip_spec(rng))
         for _i in range(6):
             specs.append(_fit_spec(rng))
-        for _i in range(3):
-            specs.append(_error_spec(rng))
+        for b in ('atol', 'atol', 'rtol'):
+            specs.append(_fit_binding_spec(rng, b))
+        for pk in (None, 'first', 'middle', 'last', 'first', 'middle'):
+            specs.append(_error_spec(rng, pk))
     return specs
 
 
@@ -509,6 +543,9 @@ def model_line(s):
         return line('c14_cubic', BOUNDARIES[s['boundary']], gen.TOL, rt, at, s['x'], _cubic_final_t(s), _opt(s['tangents']))
     if k == 'bezier':
         return line('c14_bezier', gen.TOL, s['pts'], s['quadratic'], s['relative'])
+    if k == 'error':
+        xg, wg = np.polynomial.legendre.leggauss(s['obj']['bases'][0]['order'] + 1)
+        return line('c14_error', gen.enc_object(s['obj']), gen.enc_object(s['target']), gen.TOL, xg.tolist(), wg.tolist())
     if k == 'rebuild':
         return line('c14_rebuild', gen.enc_object(s['obj']), gen.TOL, s['p'], s['n'])
     if k in ('interp_grid', 'lsq_grid'):
@@ -592,6 +629,12 @@ def _fit_f(name):
         return lambda t: np.array([t, 1.0 / (1 + 25 * t * t)]).T
     if name == 'helix':
         return lambda t: np.array([np.cos(t), np.sin(t), 0.25 * t]).T
+    if name == 'inv':
+        return lambda t: np.array([t, 1.0 / (np.asarray(t) + 0.05)]).T
+    if name == 'layer':
+        return lambda t: np.array([t, np.exp(-40 * (np.asarray(t) - 2.0)), 0.5 * np.asarray(t) ** 2]).T
+    if name == 'midstep':
+        return lambda t: np.array([t, np.tanh(30 * (np.asarray(t) - 0.375))]).T
     raise AssertionError(name)
 
 
@@ -738,7 +781,15 @@ def compare(s, iv, mv):
         return None
     if isinstance(iv, Err) or is_err(mv):
         return diff(iv, mv)
-    tol = _tol(iv['cond'])
+    tol = _tol(iv.get('cond', 1.0))
+    if k == 'error':
+        d = diff(iv['err2'], mv[0], rtol=1e-9, atol=1e-12, path='$.err2')
+        if d:
+            return d
+        m = math.sqrt(float(mv[1]))
+        if abs(iv['max'] - m) > 1e-9 * max(1.0, m):
+            return '$.err_inf: impl %.17g vs model (running max over all spans) %.17g' % (iv['max'], m)
+        return None
     if k in ('interp_curve', 'lsq_curve'):
         flat = [v for row in mv for v in row]
         d = _cmp_shape(iv['shape'], mv)
@@ -1107,7 +1158,10 @@ def _o_error(sp, s, res):
     if len(err2) != len(ks) - 1:
         return ['error(): %d values for %d knot spans' % (len(err2), len(ks) - 1)]
     xg, wg = np.polynomial.legendre.leggauss(10)
+    xc, _wc = np.polynomial.legendre.leggauss(crv.order(0) + 1)   # the sample points the docstring's estimate uses
     mx = 0.0
+    gmx = 0.0
+    gspan = 0
     for i, (a, b) in enumerate(zip(ks[:-1], ks[1:])):
         tg = (xg + 1) / 2 * (b - a) + a
         w = wg / 2 * (b - a)
@@ -1117,8 +1171,18 @@ def _o_error(sp, s, res):
             break
         td = np.linspace(a, b, 65)
         mx = max(mx, float(np.sqrt(np.sum((crv(td) - tgt(td)) ** 2, axis=1)).max()))
+        tc = (xc + 1) / 2 * (b - a) + a
+        g = float(np.sqrt(np.sum((crv(tc) - tgt(tc)) ** 2, axis=1)).max())
+        if g > gmx:
+            gmx, gspan = g, i
     if emax > mx * (1 + 1e-3) + 1e-12:
         fails.append('error(): reported max error %r exceeds the dense-sampled maximum %r' % (emax, mx))
+    # the max-norm error is the maximum over ALL knot spans
+    if abs(emax - gmx) > 1e-9 * max(1.0, gmx):
+        fails.append('error(): reported max error %r, but the pointwise error reaches %r in knot span %d of %d '
+                     '(max over all spans at the Gauss points)' % (emax, gmx, gspan, len(ks) - 1))
+    elif emax < 0.5 * mx:
+        fails.append('error(): reported max error %r is far below the dense-sampled maximum %r' % (emax, mx))
     return fails
 
 
@@ -1174,6 +1238,15 @@ def tags(s, res):
             out.append('loft-rational')
     if k == 'manipulate':
         out.append('manip=' + ('vectorized' if s['vectorized'] else 'scalar'))
+    if k == 'fit':
+        if s.get('binding'):
+            out.append('fit=%s-binding' % s['binding'])
+        if s['f'] in FIT_HARD:
+            out.append('fit-hard=' + FIT_HARD[s['f']])
+    if k == 'error':
+        out.append('error-peak=' + s.get('peak', 'any'))
+        if len(gen.distinct_knots(s['obj']['bases'][0])) >= 4:
+            out.append('error-spans>=3')
     if res is not None and isinstance(res.get('impl'), Err):
         out.append('raises')
     return out
